@@ -2,6 +2,7 @@
 from __future__ import annotations
 
 import itertools
+import json
 import random
 
 ID = "C02"
@@ -137,6 +138,8 @@ def _emitted_models(pkg_dir):
         if not f.endswith(".py") or f == "__init__.py":
             continue
         tree = ast.parse(open(os.path.join(mdir, f), encoding="utf-8").read())
+        for al in [a for a in tree.body if isinstance(a, ast.AnnAssign) and isinstance(a.target, ast.Name) and "TypeAlias" in ast.unparse(a.annotation) and a.value is not None]:
+            out.setdefault("__aliases__", {})[al.target.id] = ast.unparse(al.value)
         for cls in [c for c in tree.body if isinstance(c, ast.ClassDef)]:
             fields = [x for x in cls.body if isinstance(x, ast.AnnAssign) and isinstance(x.target, ast.Name)]
             wire = None
@@ -149,7 +152,7 @@ def _emitted_models(pkg_dir):
                             wire = None
             is_dc = any("dataclass" in ast.unparse(d) for d in cls.decorator_list)
             out[cls.name] = {"fields": [x.target.id for x in fields], "required": {x.target.id for x in fields if x.value is None}, "wire": wire, "dataclass": is_dc,
-                             "bases": [ast.unparse(b) for b in cls.bases]}
+                             "bases": [ast.unparse(b) for b in cls.bases], "annotations": {x.target.id: ast.unparse(x.annotation) for x in fields}}
     return out
 
 
@@ -304,7 +307,152 @@ def bounded_emitted_models_random(tier, seed):
             "bound": f"{len(docs)} random documents (fixed seeds), {n} object schemas", "evaluations": n, "distinct_nontrivial": n, "exhaustive": False, "failures": failures}
 
 
-BOUNDED = [bounded_field_sets, bounded_emitted_models, bounded_emitted_models_random]
+def expected_kinds(schemas, sch, depth=0):
+    """reference, written from the statement: the structural kinds a property's annotation has to mention — str / int / float / bool (formatted strings by
+    their Python type), List, Dict, the class of a referenced object or enum schema, None for nullable — as a set of identifier tokens.  Inline objects and
+    inline enums get generated class names that are not predicted here (no token).  None when the schema says nothing definite (free-form)."""
+    from pyopenapi_gen.core.utils import NameSanitizer
+    if not isinstance(sch, dict) or depth > 8:
+        return set()
+    out = set()
+    if sch.get("nullable"):
+        out.add("None")
+    if "$ref" in sch:
+        name = sch["$ref"].split("/")[-1]
+        tgt = schemas.get(name)
+        if not isinstance(tgt, dict):
+            return out
+        if tgt.get("properties") or tgt.get("allOf") or ("enum" in tgt) or tgt.get("oneOf") or tgt.get("anyOf"):
+            return out | {NameSanitizer.sanitize_class_name(name)}
+        return out  # alias of a primitive / container: rendered either by its alias name or by its target (both accepted: no token demanded)
+    for key in ("oneOf", "anyOf"):
+        if key in sch:
+            for m in sch[key]:
+                t = m.get("type") if isinstance(m, dict) else None
+                if t == "null" or t == ["null"]:
+                    out.add("None")
+                else:
+                    out |= expected_kinds(schemas, m, depth + 1)
+            return out
+    if "allOf" in sch or "enum" in sch:
+        return out
+    t = sch.get("type")
+    for one in (t if isinstance(t, list) else [t]):
+        if one == "null":
+            out.add("None")
+        elif one == "string":
+            out.add({"date": "date", "date-time": "datetime", "uuid": "UUID", "byte": "bytes", "binary": "bytes"}.get(sch.get("format"), "str"))
+        elif one == "integer":
+            out.add("int")
+        elif one == "number":
+            out.add("float")
+        elif one == "boolean":
+            out.add("bool")
+        elif one == "array":
+            out.add("List")
+            out |= {k for k in expected_kinds(schemas, sch.get("items") or {}, depth + 1) if k != "None"}
+        elif one == "object" and not sch.get("properties") and isinstance(sch.get("additionalProperties"), dict):
+            out.add("Dict")
+            out |= {k for k in expected_kinds(schemas, sch["additionalProperties"], depth + 1) if k != "None"}
+    return out
+
+
+def _annotation_tokens(text):
+    import re
+    toks = set(re.findall(r"[A-Za-z_][A-Za-z0-9_]*", text))
+    # spellings that denote the same kind
+    if "list" in toks:
+        toks.add("List")
+    if "dict" in toks:
+        toks.add("Dict")
+    if "Optional" in toks:
+        toks.add("None")
+    return toks
+
+
+KIND_SCHEMAS = {
+    "Leaf": {"type": "object", "properties": {"id": {"type": "string"}}, "required": ["id"]},
+    "Mode": {"type": "string", "enum": ["a", "b"]},
+    "Holder": {"type": "object", "properties": {
+        "one_of_ref_or_nullable_string": {"oneOf": [{"$ref": REF + "Leaf"}, {"type": ["string", "null"]}]},
+        "any_of_int_or_nullable_string": {"anyOf": [{"type": "integer"}, {"type": ["string", "null"]}]},
+        "one_of_ref_or_nullable_array": {"oneOf": [{"$ref": REF + "Leaf"}, {"type": ["array", "null"], "items": {"$ref": REF + "Leaf"}}]},
+        "one_of_with_null_member": {"oneOf": [{"$ref": REF + "Leaf"}, {"type": "integer"}, {"type": "null"}]},
+        "any_of_three": {"anyOf": [{"type": "string"}, {"type": "integer"}, {"type": "boolean"}]},
+        "list_of_union": {"type": "array", "items": {"oneOf": [{"$ref": REF + "Leaf"}, {"type": "string"}]}},
+        "map_of_leaf": {"type": "object", "additionalProperties": {"$ref": REF + "Leaf"}},
+        "map_of_list_of_int": {"type": "object", "additionalProperties": {"type": "array", "items": {"type": "integer"}}},
+        "nullable_ref_list": {"type": "array", "nullable": True, "items": {"$ref": REF + "Mode"}},
+        "when": {"type": "string", "format": "date-time"}, "day": {"type": "string", "format": "date"}, "ident": {"type": "string", "format": "uuid"},
+        "blob": {"type": "string", "format": "byte"}, "ratio": {"type": "number"}, "flag": {"type": "boolean"}, "mode": {"$ref": REF + "Mode"}, "leaf": {"$ref": REF + "Leaf"}}},
+    "Batch": {"oneOf": [{"$ref": REF + "Leaf"}, {"type": ["array", "null"], "items": {"$ref": REF + "Leaf"}}]},
+}
+
+
+def bounded_emitted_kinds(tier, seed):
+    """"typed with the structural kind the spec gives": every kind the reference derives from a property's schema (primitive, formatted leaf, List, Dict, referenced
+    class, every member of a oneOf / anyOf incl. OpenAPI 3.1 type lists, None for nullable) is mentioned by the emitted field's annotation — no member of a
+    union, no item / value kind is silently dropped"""
+    import os
+    import shutil
+    from props import corpus, gen_harness as G
+    from pyopenapi_gen.core.utils import NameSanitizer
+    docs = [("kinds", {"openapi": "3.1.0", "info": {"title": "K", "version": "1"}, "paths": {}, "components": {"schemas": KIND_SCHEMAS}})]
+    docs += [(n, d) for n, f, d in corpus.shapes(tier, seed) if f.get("random_doc")][: (4 if tier == "quick" else 60)]
+    failures, n = [], 0
+    for name, d in docs:
+        schemas = d["components"]["schemas"]
+        root = G.scratch("c02k")
+        try:
+            if G.generate(d, root, "cli") is not None:
+                if name == "kinds":
+                    failures.append({"id": "bounded:emitted-kinds:kinds:generation", "detail": "the kinds document was rejected", "input": {"document": name}})
+                continue
+            models = _emitted_models(os.path.join(root, "cli"))
+            for sname, sch in schemas.items():
+                if not isinstance(sch, dict) or not sch.get("properties"):
+                    continue
+                m = models.get(NameSanitizer.sanitize_class_name(sname))
+                if m is None or not isinstance(m.get("wire"), dict) and any(p not in m["fields"] for p in sch["properties"]):
+                    continue  # presence of classes / fields is judged by bounded_emitted_models
+                wire = m["wire"] if isinstance(m["wire"], dict) else {f: f for f in m["fields"]}
+                for pn, ps in sch["properties"].items():
+                    py = wire.get(pn)
+                    if py is None or py not in m["annotations"]:
+                        continue
+                    want = expected_kinds(schemas, ps)
+                    if pn not in sch.get("required", []) or True:
+                        want = want  # (optionality is judged elsewhere; None is only demanded when the schema itself is nullable)
+                    n += 1
+                    got = _annotation_tokens(m["annotations"][py])
+                    # a generated alias stands for its target, a generated Enum class for the primitive kind of its values
+                    aliases = models.get("__aliases__", {})
+                    for _ in range(6):
+                        more = set()
+                        for tok in list(got):
+                            if tok in aliases:
+                                more |= _annotation_tokens(aliases[tok])
+                            elif tok in models and isinstance(models[tok], dict) and any("Enum" in b for b in models[tok].get("bases", [])):
+                                more |= {"str", "int"}
+                            elif tok in models and isinstance(models[tok], dict) and "_data" in models[tok].get("annotations", {}):
+                                more |= _annotation_tokens(models[tok]["annotations"]["_data"])  # typed map wrapper class: stands for its mapping
+                        if more <= got:
+                            break
+                        got |= more
+                    if "bytes" in want and "str" in got:
+                        got.add("bytes")  # format byte / binary may be carried as base64 text
+                    lost = sorted(k for k in want if k not in got and not (k == "None" and "Any" in got))
+                    if lost and "Any" not in got:
+                        failures.append({"id": f"bounded:emitted-kinds:{name}:{sname}.{pn}", "detail": f"{name}: {sname}.{pn}: annotation `{m['annotations'][py]}` lacks {lost} (schema {json.dumps(ps)[:160]})",
+                                         "input": {"document": name, "schema": sname, "property": pn, "definition": ps}})
+        finally:
+            shutil.rmtree(root, ignore_errors=True)
+    return {"function": "emitted field annotations vs. the structural kinds of the declared property schemas (unions member by member, OpenAPI 3.1 type lists)", "backend": "bounded",
+            "bound": f"{len(docs)} documents (1 hand-built with 17 property shapes + random corpus documents), {n} properties", "evaluations": n, "distinct_nontrivial": n,
+            "exhaustive": False, "failures": failures}
+
+
+BOUNDED = [bounded_field_sets, bounded_emitted_models, bounded_emitted_models_random, bounded_emitted_kinds]
 
 MANIFEST = {
     "category": "other",
